@@ -151,7 +151,13 @@ func poolRules(p *Prog, r *Report, R string) {
 		}
 		r.Check(ok, R, "NewMessage/class-fits", get.Pos(p), "pool i is used only when sz < (or <=) maxbody_i", "NewMessage takes a pool buffer without the guard sz < maxbody of that same class: "+guardsOf(get))
 		al := nm.Ev("call", "mangos.newMsg").Arg(0, "arg1")
-		r.Check(len(al) == 1 && al.AllGuarded("φm == nil"), R, "NewMessage/fallback-exact", al.Pos(p), "otherwise allocates exactly sz", "NewMessage does not fall back to newMsg(sz) when no class fits")
+		okFall := len(al) == 1 && al.AllGuarded("φm == nil")
+		if !okFall && len(al) == 1 && len(get) == 1 && al[0].In.Parent() == get[0].In.Parent() {
+			// early-return form: the pool hit returns at once, the fallback is what is left —
+			// no path leads from the pool Get to the fresh allocation
+			okFall = !CanPrecede(blockReach(al[0].In.Parent()), get[0].In, al[0].In)
+		}
+		r.Check(okFall, R, "NewMessage/fallback-exact", al.Pos(p), "otherwise allocates exactly sz", "NewMessage does not fall back to newMsg(sz) when no class fits")
 		b := nm.Ev("store", "*.Body")
 		h := nm.Ev("store", "*.Header")
 		rc := nm.Ev("call", "atomic.StoreInt32")
